@@ -63,7 +63,7 @@ theorem kInv_sendMessage (e : Ep) (m : Msg) (hi : KInv e) (hm : kOK e.txPendAck 
     KInv (sendMessage e m) := by
   unfold KInv at *
   intro x hx
-  simp only [sendMessage, kaReset, idleReset, List.mem_append, List.mem_singleton] at hx
+  simp only [sendMessage, sendReady, kaReset, idleReset, List.mem_append, List.mem_singleton] at hx
   rcases hx with hx | hx
   · exact hi x hx
   · subst hx; exact hm
@@ -102,7 +102,7 @@ theorem kInv_sendSegment (e : Ep) (it : TxItem) (sent : Nat) (hi : KInv e) :
     · -- final segment: the transfer now awaits its acknowledgement
       refine kInv_of_view (kv_pqTrigger _) ?_
       intro m hm
-      simp only [sendMessage, kaReset, idleReset, List.mem_append, List.mem_singleton] at hm ⊢
+      simp only [sendMessage, sendReady, kaReset, idleReset, List.mem_append, List.mem_singleton] at hm ⊢
       rcases hm with hm | hm
       · have := hi m hm
         cases m <;> simp only [kOK] at this ⊢
@@ -145,7 +145,7 @@ theorem kInv_writeConn (e : Ep) (n : Nat) (up : Bool) (hi : KInv e) : KInv (writ
     · exact hi
   · simp only []
     split
-    · exact kInv_of_view (kv_doClose e) hi
+    · exact hi
     · split
       · exact kInv_of_view (by rw [kv_checkSessTerm]; rfl) hi
       · exact kInv_of_view rfl hi
@@ -341,7 +341,9 @@ theorem kInv_step (e : Ep) (ev : Ev) (hi : KInv e) : KInv (step e ev).1 := by
     simp only []
     split
     · exact hi
-    · exact kInv_pump _ _ hi
+    · split
+      · exact hi
+      · exact kInv_of_view rfl (kInv_pump _ _ (kInv_of_view (e := e) rfl hi))
   | rx c =>
     simp only []
     split
